@@ -123,13 +123,13 @@ def evaluate(a):
             t_op = time.time()
             r = run_reader(argv, wd, 10)
             OPTIME[opname.split(" /")[0]] = OPTIME.get(opname.split(" /")[0], 0.0) + time.time() - t_op
-            if r.timeout and HANGS.value >= 8:
-                # eight hangs were already confirmed with the long limit: report further 10 s timeouts without the long re-run
-                found.append(("C05|hang|%s" % opname.split(" -")[0] + "|" + opname, opname, "does not terminate within 10 s (long re-runs stopped after 8 confirmed hangs)", argv))
+            if r.timeout and HANGS.value >= 4:
+                # four hangs were already confirmed with the long limit: report further 10 s timeouts without the long re-run
+                found.append(("C05|hang|%s" % opname.split(" -")[0] + "|" + opname, opname, "does not terminate within 10 s (long re-runs stopped after 4 confirmed hangs)", argv))
                 continue
             if r.timeout:
                 # the API pass runs ~1000 histories in one process, each on fresh readers: a slow table load multiplies
-                limit = 600 if opname.startswith("libsquashfs-api") else 60
+                limit = (180 if tier == "quick" else 600) if opname.startswith("libsquashfs-api") else 60
                 r = run_reader(argv, wd, limit)
                 if r.timeout:
                     with HANGS.get_lock():
